@@ -83,6 +83,7 @@ def oracle_case(lines, outs):
         elif op == 'd2s':
             b = int(f[2])
             if E.ddim[a][0] <= E.dim[b][0] and E.ddim[a][1] <= E.dim[b][1]: E.s[b] = set(E.d[a])
+        elif op == 'dclear': E.d[a] = set()
         elif op == 'dset':
             r, c, v = int(f[2]), int(f[3]), int(f[4])
             if r < E.ddim[a][0] and c < E.ddim[a][1]:
@@ -214,6 +215,28 @@ def random_case(rng, name, big=False):
     body += ['sfree %d' % i for i in range(ns)] + ['dfree 4']
     return corr.mk(name, body)
 
+def conversion_case(rng, name):
+    """sparse <-> dense conversions on widths that span several 32-bit words, with entries concentrated at word boundaries"""
+    nr = rng.randint(1, 9); nc = rng.choice([31, 32, 33, 40, 63, 64, 65, 70, 96, 97, 100, 128, 130])
+    body = ['salloc 0 %d %d' % (nr, nc), 'salloc 1 %d %d' % (nr + rng.randint(0, 2), nc + rng.choice([0, 0, 1, 32])), 'dalloc 4 %d %d' % (nr, nc)]
+    cols = sorted(set(c for c in [0, 1, 30, 31, 32, 33, 62, 63, 64, 65, 95, 96, 97, 127, 128, 129, nc - 1] if c < nc))
+    mode = rng.random()
+    for i in range(nr):
+        if mode < 0.4:     # sparse rows: a single bit right after an all-zero word, or at a boundary
+            for c in rng.sample(cols, rng.randint(0, min(3, len(cols)))):
+                body.append('dset 4 %d %d 1' % (i, c))
+        elif mode < 0.7:
+            for c in range(nc):
+                if rng.random() < 0.08 or (c % 32 == 0 and rng.random() < 0.5): body.append('dset 4 %d %d 1' % (i, c))
+        else:
+            for c in rng.sample(range(nc), rng.randint(0, nc // 2)): body.append('dset 4 %d %d 1' % (i, c))
+    # pre-existing entries in the destination must disappear
+    for _ in range(rng.randint(0, 4)): body.append('sins 0 %d %d' % (rng.randrange(nr), rng.randrange(nc)))
+    body += ['d2s 4 0', 'sdump 0', 'd2s 4 1', 'sdump 1', 'dclear 4', 's2d 0 4', 'ddump 4']
+    for _ in range(rng.randint(0, 3)): body.append('sdel 0 %d %d' % (rng.randrange(nr), rng.choice(cols)))
+    body += ['s2d 0 4', 'ddump 4', 'd2s 4 0', 'sdump 0', 'sfree 0', 'sfree 1', 'dfree 4']
+    return corr.mk(name, body)
+
 def gen_cases(rng, tier):
     cases = exhaustive_cases(4 if tier == 'quick' else 5)
     nexh = len(cases)
@@ -221,6 +244,8 @@ def gen_cases(rng, tier):
         cases.append(random_case(rng, 'r%d' % i))
     for i in range(2 if tier == 'quick' else 12):
         cases.append(random_case(rng, 'big%d' % i, big=True))
+    for i in range(150 if tier == 'quick' else 3000):
+        cases.append(conversion_case(rng, 'cv%d' % i))
     return cases, nexh
 
 def run(res, tier, seed, gen_errs):
